@@ -868,6 +868,12 @@ def serve(conn) -> None:
         shims.UUIDS.calls = 0
         shims.arm(env.get("fault"), env.get("root", "/nonexistent"))
         shims.STATE.root = env.get("root")
+        try:
+            import locale  # noqa: PLC0415
+
+            locale.setlocale(locale.LC_CTYPE, env.get("locale") or "C.utf8")
+        except Exception:  # noqa: BLE001
+            pass
         root = env.get("root")
         if root and os.path.isdir(root) and os.getcwd() != root:
             os.chdir(root)  # every request starts in the run directory
